@@ -318,8 +318,7 @@ Lemma cw_facts_all :
   cw_src_mode = CwMatch /\
   cw_chunk_whole = true /\ cw_src_import_escaped = true /\ cw_src_name_exact = true /\ cw_src_number_roundtrip = true /\
   cw_src_precheck_object = true /\ cw_opt_is f_cw_delete_helper_removes_file (fun b => b = true) /\
-  filter (fun k => negb (cw_mem k cw_writer_keywords)) cw_lexer_keywords =
-    [[100; 101; 98; 117; 103; 103; 101; 114]; [105; 110]] /\
+  cw_lexer_only = [] /\
   forallb (fun k => cw_mem k cw_lexer_keywords) [cw_s_null; cw_s_true; cw_s_false; cw_s_object; cw_s_import; cw_s_ignore_on_error] = true.
 Proof.
   destruct cw_facts as (A1 & A2 & A3 & A4 & A5 & A6 & A7 & A8 & A9 & A10 & A11).
